@@ -568,10 +568,10 @@ impl Check for C02 {
             for ty in [Ty::Os, Ty::Path, Ty::Str, Ty::U32] {
                 for adjacent in [false, true] {
                     for (kind, hidden) in [(Kind::ArgReq, false), (Kind::ArgOpt, false), (Kind::ArgMany, false), (Kind::ArgFallback, false), (Kind::ArgOpt, true), (Kind::ArgMany, true)] {
-                        let arg = Named { names: mk_names(set[2]), kind, hidden, ty, adjacent };
+                        let arg = Named { names: mk_names(set[2]), kind, hidden, ty, adjacent, guarded: false };
                         // shape A: two flags + the argument; shape B: the argument alone, one more occurrence
-                        let f1 = Named { names: mk_names(set[0]), kind: Kind::Switch, hidden: false, ty: Ty::Os, adjacent: false };
-                        let f2 = Named { names: mk_names(set[1]), kind: Kind::Count, hidden: false, ty: Ty::Os, adjacent: false };
+                        let f1 = Named { names: mk_names(set[0]), kind: Kind::Switch, hidden: false, ty: Ty::Os, adjacent: false, guarded: false };
+                        let f2 = Named { names: mk_names(set[1]), kind: Kind::Count, hidden: false, ty: Ty::Os, adjacent: false, guarded: false };
                         let la = Level { named: vec![f1, f2, arg.clone()], tail: Tail::None, version: None, usage_fallback: false };
                         let lb = Level { named: vec![arg], tail: Tail::None, version: None, usage_fallback: false };
                         let full = ty == Ty::Os || tier == Tier::Thorough;
